@@ -662,7 +662,15 @@ bool Session::handle_sequence_reset(const unsigned seqnum, const Message *msg)
 		if (nsn() >= static_cast<int>(_next_receive_seq))
 			_next_receive_seq = nsn() - 1;
 		else if (nsn() < static_cast<int>(_next_receive_seq))
-			throw MsgSequenceTooLow(nsn(), _next_receive_seq);
+		{
+			// a retransmitted gap fill for numbers already received (the peer answering a repeated resend request) changes nothing
+			poss_dup_flag pdf(false);
+			msg->Header()->get(pdf);
+			if (!pdf() || seqnum >= _next_receive_seq)
+				throw MsgSequenceTooLow(nsn(), _next_receive_seq);
+			--_next_receive_seq; // process() moves the number on for every sequence reset
+			return true;
+		}
 	}
 
 	if (_state == States::st_resend_request_sent)
